@@ -68,8 +68,14 @@ def _chunk(args):
     nontrivial = 0
     samples = []
     cfg = collections.Counter()
+    first_herr = None
     for i in range(start, start + count):
         r = run_one(prop, verif_seed, i, banned=banned, tier=tier)
+        if r.harness_error is not None:
+            stats['harness_discarded_runs'] += 1
+            if first_herr is None:
+                first_herr = (i, r.harness_error)
+            continue
         steps += r.steps
         stats.update(r.stats)
         digests.update(r.digest.encode())
@@ -90,7 +96,7 @@ def _chunk(args):
     faulthandler.cancel_dump_traceback_later()
     return {'start': start, 'count': count, 'steps': steps, 'stats': dict(stats), 'sigs': sigs,
             'states': states, 'tris': tris, 'viols': viols, 'digest': digests.hexdigest(),
-            'nontrivial': nontrivial, 'samples': samples, 'cfg': dict(cfg)}
+            'nontrivial': nontrivial, 'samples': samples, 'cfg': dict(cfg), 'herr': first_herr}
 
 
 def run_batch(prop, verif_seed, runs, workers, cap, banned=(), start=0, tier='quick'):
@@ -325,6 +331,13 @@ def check(prop, tier, args):
                 exit_code = 1
                 break
 
+    discarded = agg['stats'].get('harness_discarded_runs', 0)
+    if discarded:
+        eprint('warning: %d of %d runs were discarded because the simulator itself failed; first (run %d):\n%s' % (
+            discarded, agg['runs'], agg['herr'][0], agg['herr'][1]))
+        if discarded > max(3, agg['runs'] // 2000) and exit_code == 0:
+            eprint('HARNESS-ERROR: too many discarded runs')
+            return 2
     if not det['ok'] and exit_code == 0:
         eprint('HARNESS-ERROR: determinism self-test failed and the search found no violation: %r' % (det,))
         return 2
@@ -354,6 +367,7 @@ def aggregate(chunks):
         agg['samples'].extend(c['samples'])
         h.update(c['digest'].encode())
     agg['digest'] = h.hexdigest()
+    agg['herr'] = next((c['herr'] for c in sorted(chunks, key=lambda c: c['start']) if c.get('herr')), None)
     return agg
 
 
@@ -408,6 +422,7 @@ def write_evidence(prop, tier, verif_seed, conf, workers, agg, det, wall, n_viol
             'callback_invocations': {k[3:]: v for k, v in st.items() if k.startswith('cb_on_')},
             'reach_probes': {k: st.get(k, 0) for k in PROBES[prop]},
             'generator_fallbacks': {k: v for k, v in st.items() if k.startswith('generator_fallback')},
+            'harness_discarded_runs': st.get('harness_discarded_runs', 0),
             'distinct_abstract_world_states': len(agg['states']),
             'distinct_op_trigrams': len(agg['tris']),
             'determinism_sample': det,
